@@ -364,7 +364,7 @@ CONFIGS = [
     {"hashseed": 2, "block": ["scoreboard_cy", "time_utils_cy", "working_hours_cy"]},
     {"hashseed": 3, "block": ["time_utils_cy"]},
 ]
-COUNTS = {"quick": {"count": 1400, "wall": 100}, "thorough": {"count": 40000, "wall": 1500}}
+COUNTS = {"quick": {"count": 2000, "wall": 100}, "thorough": {"count": 40000, "wall": 1500}}
 RULE = (
     "scenario = one simulated `plan report` run (or the same bytes through file / '-' / omitted-argument channels) over a seeded world: "
     "input class, format, verbosity, listing permutation, name collisions, decoys, clock, TZ, enabled fault kinds, tape; "
